@@ -31,6 +31,7 @@ pub fn drive(kind: &str, seed: u64, n: usize, extra: &str, sink: &mut Sink) -> u
         "approx" => drive_approx(seed, n, sink),
         "serde" => drive_serde(seed, n, sink),
         "session" => crate::session::drive_session(seed, n, sink),
+        "nopanic" => crate::session::drive_nopanic(seed, n, sink),
         "calib" => {
             drive_calib(seed, n, sink);
             0
